@@ -1,5 +1,6 @@
 import SpVerif.Generated.ParKernels
 import SpVerif.Model.PackFS
+import SpVerif.Props.C10
 /-!
 # C18 — results do not depend on scheduling, thread count or concurrent use
 
@@ -8,7 +9,8 @@ run — stores only to `result[<loop variable>]` and carries no reduction variab
 sets; (ii) writes to disjoint indices commute, hence every interleaving of such iterations produces the same array;
 (iii) a check-then-build cache whose builder is a deterministic function of immutable data gives every reader the same value
 in every interleaving; (iv) the renumbering moves of pack_partitions_to_parquet do **not** commute (negative witness): they
-must run in the coded order.  Memory-model effects, GIL release points and the Dask scheduler are outside any model here.
+must run in the coded order; (v) the concatenation tasks of pack_partitions_to_parquet, which Dask runs in any order, leave
+the same dataset whatever that order is.  Memory-model effects, GIL release points and the Dask scheduler are outside any model here.
 -/
 namespace SpVerif
 open Generated PackFS
@@ -64,5 +66,20 @@ theorem C18_cache_benign {D V : Type} (build : D → V) (data : D) (stores : Lis
 /-- the renumbering moves are order dependent: run in another order they lose a part (so they must not be independent tasks) -/
 theorem C18_moves_do_not_commute :
     ¬ (compactIn (moves [0, 2, 3]).reverse [0, 2, 3]).Perm (compact [0, 2, 3]) := by decide
+
+/-- **the concatenation tasks may run in any order**: two schedules of the per-partition concatenation tasks of
+`pack_partitions_to_parquet` end with the same dataset - the same clean tree and the same part files (as a set) -/
+theorem C18_concat_tasks_order_irrelevant (m : PackProto.Mode) (overwrite : Bool) (n nIn : Nat) (cells : Nat → Nat → Bool)
+    (o₁ o₂ : List Nat) (h₁ : o₁.Perm (List.range n)) (h₂ : o₂.Perm (List.range n)) (t₀ : PackProto.Tree)
+    (h0 : overwrite = true ∨ t₀ = PackProto.empty) (hext : t₀.tmpDirs = [] ∧ t₀.subs = [] ∧ t₀.uuidDir = false) :
+    let a := PackProto.run m overwrite n nIn cells o₁ t₀
+    let b := PackProto.run m overwrite n nIn cells o₂ t₀
+    a.placeholders = b.placeholders ∧ a.tmpDirs = b.tmpDirs ∧ a.subs = b.subs ∧ a.uuidDir = b.uuidDir ∧ a.metaF = b.metaF ∧
+      a.cmetaF = b.cmetaF ∧ a.stale = b.stale ∧ a.files.Perm b.files := by
+  intro a b
+  obtain ⟨a1, a2, a3, a4, a5, a6, a7, a8⟩ := C10_final_tree m overwrite n nIn cells o₁ h₁ t₀ h0 hext
+  obtain ⟨b1, b2, b3, b4, b5, b6, b7, b8⟩ := C10_final_tree m overwrite n nIn cells o₂ h₂ t₀ h0 hext
+  exact ⟨a1.trans b1.symm, a2.trans b2.symm, a3.trans b3.symm, a4.trans b4.symm, a5.trans b5.symm, a6.trans b6.symm,
+    a7.trans b7.symm, a8.trans b8.symm⟩
 
 end SpVerif
